@@ -74,6 +74,13 @@ def run_codec(ctx) -> RuleResult:
             left_ko, right_ko = _is_key_offset(ctx, module, node.left), _is_key_offset(ctx, module, node.right)
             other = node.right if left_ko else node.left
             other_text = U(other)
+            for _ in range(3):  # a named temporary holding the uint32 view
+                if isinstance(other, ast.Name):
+                    values = [n2.value for n2 in ast.walk(func) if isinstance(n2, ast.Assign) and len(n2.targets) == 1
+                              and isinstance(n2.targets[0], ast.Name) and n2.targets[0].id == other.id]
+                    if len(values) == 1:
+                        other = values[0]
+                        other_text += " <- " + U(other)
             decoding = ".view(" in other_text and "uint32" in other_text
             if left_ko or right_ko:
                 where = module.loc(node)
@@ -338,8 +345,27 @@ def run_header(ctx) -> RuleResult:
     if wcall is None:
         raise AnalysisError("savetxt no longer formats HEADER_TEMPLATE")
     joins: Dict[str, Optional[str]] = {}
+    writer_kw = [(kw.arg, kw.value) for kw in wcall.keywords if kw.arg is not None]
     for kw in wcall.keywords:
-        value = kw.value
+        if kw.arg is not None:
+            continue
+        # HEADER_TEMPLATE.format(**fields): a local dict literal, dict(...) call, or <record>(...)._asdict()
+        src = kw.value
+        if isinstance(src, ast.Call) and isinstance(src.func, ast.Attribute) and src.func.attr == "_asdict":
+            src = src.func.value
+        for _ in range(3):
+            if isinstance(src, ast.Name):
+                values = [n.value for n in ast.walk(sfunc) if isinstance(n, ast.Assign) and len(n.targets) == 1
+                          and isinstance(n.targets[0], ast.Name) and n.targets[0].id == src.id]
+                src = values[0] if len(values) == 1 else None
+        if isinstance(src, ast.Dict) and all(isinstance(k, ast.Constant) for k in src.keys):
+            writer_kw += [(k.value, v) for k, v in zip(src.keys, src.values)]
+        elif isinstance(src, ast.Call) and isinstance(src.func, ast.Name) and src.keywords and not src.args:
+            writer_kw += [(k.arg, k.value) for k in src.keywords if k.arg is not None]
+        else:
+            raise AnalysisError("savetxt: the mapping passed to HEADER_TEMPLATE.format(**...) was not recognised")
+    for kw_name, value in writer_kw:
+        kw = ast.keyword(arg=kw_name, value=value)
         sep = None
         if isinstance(value, ast.Call) and isinstance(value.func, ast.Attribute) and value.func.attr == "join" \
                 and isinstance(value.func.value, ast.Constant):
@@ -354,6 +380,22 @@ def run_header(ctx) -> RuleResult:
     }
     group_use: Dict[int, ast.AST] = {}
     splits: Dict[int, Optional[str]] = {}
+    # tuple-unpacking form:  names_field, keys_field, shape_field = match.groups()
+    for node in ast.walk(lfunc):
+        if isinstance(node, ast.Assign) and len(node.targets) == 1 and isinstance(node.targets[0], ast.Tuple) \
+                and isinstance(node.value, ast.Call) and isinstance(node.value.func, ast.Attribute) and node.value.func.attr == "groups" \
+                and all(isinstance(e, ast.Name) for e in node.targets[0].elts):
+            for idx, elt in enumerate(node.targets[0].elts):
+                for use in ast.walk(lfunc):
+                    if isinstance(use, ast.Assign) and len(use.targets) == 1 and isinstance(use.targets[0], ast.Name):
+                        for sub in ast.walk(use.value):
+                            if isinstance(sub, ast.Name) and sub.id == elt.id and isinstance(sub.ctx, ast.Load):
+                                group_use.setdefault(idx, use)
+                                parent = getattr(sub, "_parent", None)
+                                grand = getattr(parent, "_parent", None)
+                                if isinstance(parent, ast.Attribute) and parent.attr == "split" and isinstance(grand, ast.Call) \
+                                        and grand.args and isinstance(grand.args[0], ast.Constant):
+                                    splits[idx] = grand.args[0].value
     for node in ast.walk(lfunc):
         if isinstance(node, ast.Assign) and len(node.targets) == 1 and isinstance(node.targets[0], ast.Name):
             for sub in ast.walk(node.value):
@@ -442,7 +484,7 @@ def run_header(ctx) -> RuleResult:
     # layout restored before the structured view
     found = False
     for call in calls_in(lfunc):
-        cname = ctx.dotted(lmod, call.func, ctx.locals_of(lfunc))
+        cname = ctx.dotted(lmod, call.func, ctx.locals_of(lfunc)) or U(call.func)  # also a function-level import
         if cname and cname.endswith("unstructured_to_structured"):
             found = True
             arg = call.args[0]
@@ -450,7 +492,8 @@ def run_header(ctx) -> RuleResult:
             m = isinstance(arg, ast.Call) and isinstance(arg.func, ast.Attribute) and arg.func.attr == "reshape"
             keys_assign = group_use.get(captured.index("keys")) if "keys" in captured else None
             keys_var = keys_assign.targets[0].id if keys_assign is not None else "keys"
-            ok = bool(m) and len(arg.args) == 2 and U(arg.args[1]) == f"len({keys_var})"
+            second = U(arg.args[1]) if bool(m) and len(arg.args) == 2 else ""
+            ok = second == f"len({keys_var})" or (second.startswith("len(") and "keys" in second)
             result.ob("loadtxt restores the (elements, terms) layout before the structured view", ok, lmod.loc(call), text)
             if not ok:
                 result.add(Finding("R-HEADER", lmod, "loadtxt", call,
